@@ -1865,11 +1865,16 @@ impl<'a> Socket<'a> {
 
         // If a FIN is received at the end of the current segment, but
         // we have a hole in the assembler before the current segment, disregard this FIN.
-        if control == TcpControl::Fin && window_start < segment_start {
+        // Likewise if the end of the segment lies beyond the receive window: the octets in
+        // front of the FIN have been trimmed off, so the FIN is not in sequence either.
+        if control == TcpControl::Fin && (window_start < segment_start || window_end < segment_end)
+        {
             tcp_trace!(
-                "ignoring FIN because we don't have full data yet. window_start={} segment_start={}",
+                "ignoring FIN because we don't have full data yet. window_start={} segment_start={} window_end={} segment_end={}",
                 window_start,
-                segment_start
+                segment_start,
+                window_end,
+                segment_end
             );
             control = TcpControl::None;
         }
